@@ -14,6 +14,8 @@ FIXED = {
     "_getBaseCellDirection.0": 8, "_faceIjkToVerts.0": 7, "_faceIjkPentToVerts.0": 6,
     "cellToVertexes.0": 7, "originToDirectedEdges.0": 7, "getPentagons.0": 123, "getRes0Cells.0": 123,
     "_geoToClosestFace.0": 21, "areNeighborCells.0": 8,
+    # harness-side helper loops (constant bounds)
+    "spec_valid_cell.0": 17, "spec_is_pentagon.0": 17, "spec_parent.0": 17, "spec_center_child.0": 17, "spec_size.0": 17, "firstNZpos.0": 17,
 }
 
 
@@ -177,4 +179,34 @@ def c13(tier):
                     js.append(j)
     for p in (0, 3, 9, 15):
         js += with_witness(J("err_%d" % p, "C13_childpos.c", ["-DERR", "-DPRES=%d" % p], unwind=17, us={"_ipow.0": 6}, est=20, bound="all int resolutions and positions, parents of res %d" % p))
+    return js
+
+
+# ------------------------------------------------------------------------------------------- C10
+@prop("C10",
+      functions=["isValidDirectedEdge", "getDirectedEdgeOrigin", "getDirectedEdgeDestination", "directedEdgeToCells", "cellsToDirectedEdge", "directionForNeighbor", "originToDirectedEdges", "h3NeighborRotations", "edgeLengthKm", "edgeLengthM"],
+      bounds={"quick": "isValidDirectedEdge and wrong-mode rejection: all 2^64 words; origin/destination decode: all valid cells of res 0-6,15 x 6 directions; cellsToDirectedEdge on neighbours: res 0-3; arbitrary 64-bit destination (E_NOT_NEIGHBORS): res 0-1; originToDirectedEdges: all 16 resolutions; unit scaling: all doubles x all error codes",
+              "thorough": "decode: all 16 resolutions; cellsToDirectedEdge: res 0-8,15; arbitrary destination: res 0-3"},
+      outside="directedEdgeToBoundary coordinates and edgeLengthRads itself (trig); shared-boundary coincidence is C08's lattice check",
+      assumptions=["unit-scaling glue: edgeLengthRads replaced by an arbitrary (value, code) stub"],
+      stubs=["edgeLengthRads (only in the scaling glue job)"])
+def c10(tier):
+    js = []
+    js += with_witness(J("valid_allwords", "C10_edges.c", ["-DVALID"], unwind=17, est=5, bound="all 2^64 words"))
+    js += with_witness(J("mode_allwords", "C10_edges.c", ["-DMODE"], unwind=17, est=5, bound="all 2^64 words with mode != 2"))
+    js += with_witness(J("scale_edge", "scale_glue.c", [], unwind=3, est=5, stubs={"latLng": ["edgeLengthRads"]}, bound="all doubles, all error codes"))
+    for r in ALLRES:
+        js.append(J("origins_r%d" % r, "C10_edges.c", ["-DORIGINS", "-DRES=%d" % r], unwind=17, est=5, bound="all valid cells of res %d" % r))
+        t = "quick" if r <= 6 or r == 15 else "thorough"
+        js.append(J("dest_r%d" % r, "C10_edges.c", ["-DDEST", "-DRES=%d" % r], unwind=r + 2, est=20 + 5 * r, tier=t, mem=("M" if r >= 9 else "S"), bound="all valid cells of res %d x directions" % r))
+        if r <= 8 or r == 15:
+            t = "quick" if r <= 3 else "thorough"
+            js.append(J("cells2edge_r%d" % r, "C10_edges.c", ["-DCELLS2EDGE", "-DRES=%d" % r], unwind=r + 2, est=60 + 20 * r, mem="M", tier=t, timeout=2400, bound="all neighbour pairs at res %d" % r))
+        if r <= 3:
+            t = "quick" if r <= 1 else "thorough"
+            js.append(J("anydest_r%d" % r, "C10_edges.c", ["-DANYDEST", "-DRES=%d" % r], unwind=r + 2, us={"harness.0": 8}, est=100 + 50 * r, mem="M", tier=t, timeout=2400, bound="all valid origins of res %d x all 2^64 destination words" % r))
+    js += with_witness(J("origins_r2", "C10_edges.c", ["-DORIGINS", "-DRES=2"], unwind=17, est=5))[1:]
+    js += with_witness(J("dest_r1", "C10_edges.c", ["-DDEST", "-DRES=1"], unwind=3, est=5))[1:]
+    js += with_witness(J("cells2edge_r1", "C10_edges.c", ["-DCELLS2EDGE", "-DRES=1"], unwind=3, est=30, mem="M"))[1:]
+    js += with_witness(J("anydest_r0", "C10_edges.c", ["-DANYDEST", "-DRES=0"], unwind=2, us={"harness.0": 8}, est=30, mem="M"))[1:]
     return js
